@@ -7,7 +7,7 @@ alone: each initiator's adr carries its index in the low bits.
 import random
 
 from vmon import env  # noqa: F401
-from vmon.simkit import Top, Mon, Stop, simulate, bits
+from vmon.simkit import Top, Mon, Stop, simulate, bits, biased_bits
 
 from amaranth import Value
 from amaranth_soc import wishbone
@@ -31,7 +31,7 @@ def gen_arb(rng, tier):
         intrs.append({"gran": ig, "features": feat,
                       "behaviour": rng.choice(["random", "random", "sticky", "greedy", "locker", "polite"])})
     return {"n": n, "aw": rng.choice([4, 6, 8, 16, 30]), "dw": dw, "gran": gran, "features": afeat, "intrs": intrs,
-            "cycles": 300 if tier == "quick" else 900}
+            "cycles": (300 if tier == "quick" else 900) * (8 if rng.random() < 0.04 else 1)}
 
 
 def fanout(sel, n_in, ratio):
@@ -91,7 +91,7 @@ def run_arb_case(case, judged):
                 r["stb"] = rng.getrandbits(1)          # between transfers of a locked cycle
             return r
         r = {"adr": (rng.getrandbits(aw) >> idx_bits << idx_bits | i) & ((1 << aw) - 1),
-             "dat_w": bits(rng, dw), "sel": bits(rng, nsel), "we": rng.getrandbits(1),
+             "dat_w": biased_bits(rng, dw), "sel": biased_bits(rng, nsel), "we": rng.getrandbits(1),
              "cyc": int(rng.random() < 0.45), "stb": int(rng.random() < 0.5)}
         if "lock" in feat:
             r["lock"] = int(rng.random() < 0.3)
